@@ -2805,10 +2805,22 @@ func (w *World) positionSummary() []resolvedArg {
 			}
 			if fa, ok := st.Addr.(*ssa.FieldAddr); ok && fieldAddrName(fa) == "End" {
 				if _, isAlloc := fa.X.(*ssa.Alloc); isAlloc {
-					for _, o := range phiOrigins(st.Val) {
-						if o == ssa.Value(fn.Params[2]) {
-							w.posEndRaw = true
+					// the parameter itself, on every path: a phi of the parameter and len(Buffer) is a clamp (judged where it is
+					// handed to ResolvePos)
+					v := st.Val
+					for {
+						if cv, ok := v.(*ssa.Convert); ok {
+							v = cv.X
+							continue
 						}
+						if ct, ok := v.(*ssa.ChangeType); ok {
+							v = ct.X
+							continue
+						}
+						break
+					}
+					if v == ssa.Value(fn.Params[2]) {
+						w.posEndRaw = true
 					}
 				}
 			}
